@@ -69,7 +69,7 @@ def generate(seed, stratum, tier):
   if stratum == 'queued-backlog':
     kw = {'fx_rate': rng.choice([0.0, 0.2]), 'fx_ops': ('post_fifo', 'post_lifo'), 'nstates': rng.randrange(2, 9)}
     sc = cc.gen_chart_scenario(rng, combos=[('queued', 'closure')], nops=(5, 30), spec_kw=kw, flags=False,
-                               ops=('post_fifo', 'post_lifo', 'rtc', 'circuit', 'ev'), weights=(5, 2, 3, 2, 1))
+                               ops=('post_fifo', 'post_lifo', 'rtc', 'circuit', 'ev', 'defer', 'recall'), weights=(5, 2, 3, 2, 1, 1.5, 1.5))
     sc['configs'] = [0] + sorted(rng.sample(range(1, len(QUEUED_CONFIGS)), 5 if tier == 'quick' else 9))
     sc['config_set'] = 'queued'
     if rng.random() < 0.3:
@@ -110,7 +110,8 @@ def cfg_name(c):
 
 
 def behaviour(run):
-  return [(tuple(ob.op), tuple(co.obs_actions(ob.recs)), ob.state, ob.exc) for ob in run.steps]
+  # what an operation handed back counts as behaviour where the caller can act on it (recall)
+  return [(tuple(ob.op), tuple(co.obs_actions(ob.recs)), ob.state, ob.exc, ob.ret if ob.op[0] == 'recall' else None) for ob in run.steps]
 
 
 def execute_threaded(sc, sched):
